@@ -3458,6 +3458,9 @@ func genPure(p *pkgInfo) string {
 			}
 		}
 	}
+	// in alphabetical order: the order of the Section variables is the order of the corresponding arguments of the
+	// translated functions once the Section is closed, and must not depend on which function mentions a callee first
+	sort.Slice(externs, func(i, j int) bool { return externs[i].name < externs[j].name })
 	for _, e := range externs {
 		fmt.Fprintf(&sb, "Variable %s : %s.        (* external call: another function of the package *)\n", e.name, e.typ)
 	}
